@@ -13,7 +13,15 @@ pub fn dxtn_to_image(
     }
     let raw_image = &image.images[mipmap_level];
     let (width, height) = header.mipmap_size(mipmap_level);
-    let size = (width as usize) * (height as usize) * 4;
+    let size = (width as usize)
+        .checked_mul(height as usize)
+        .and_then(|n| n.checked_mul(4))
+        .ok_or(Error::MismatchSizes(
+            mipmap_level,
+            width,
+            height,
+            raw_image.content.len(),
+        ))?;
 
     let decoder: texpresso::Format = image.format.into();
 
@@ -27,6 +35,24 @@ pub fn dxtn_to_image(
     // If the actual data is smaller than required, pad with zeros
     // This matches SereniaBLPLib behavior - small mipmaps often have undersized data
     // in BLP files, and zero-padding allows decompression to succeed
+    if width == 0 || height == 0 {
+        return Err(Error::MismatchSizes(
+            mipmap_level,
+            width,
+            height,
+            raw_image.content.len(),
+        ));
+    }
+    // Zero-padding is for the few missing bytes of small levels, not for dimensions the data
+    // cannot possibly cover
+    if raw_image.content.len() < required_size && required_size > (1 << 20) {
+        return Err(Error::MismatchSizes(
+            mipmap_level,
+            width,
+            height,
+            raw_image.content.len(),
+        ));
+    }
     let compressed_data: std::borrow::Cow<'_, [u8]> = if raw_image.content.len() < required_size {
         // Create zero-padded buffer and copy available data
         let mut padded = vec![0u8; required_size];
